@@ -83,7 +83,10 @@ def value_strategy():
         st.lists(st.floats(-5, 5, allow_nan=False).map(lambda x: round(x, 3)), min_size=1, max_size=3).map(lambda v: {'t': 'arr', 'v': v}),
         st.lists(num, max_size=2).map(lambda v: {'t': 'nested', 'v': v}),
         num.map(lambda v: {'t': 'num', 'v': v}),
-        st.sampled_from(['x', 'LJ', 'AB']).map(lambda v: {'t': 'str', 'v': v}))
+        st.sampled_from(['x', 'LJ', 'AB', '']).map(lambda v: {'t': 'str', 'v': v}),
+        # values that are 'falsy' but perfectly valid table entries (an assigned entry is one that is not None)
+        st.sampled_from([False, 0, 0.0]).map(lambda v: {'t': 'num', 'v': v}),
+        st.just({'t': 'arr', 'v': [0.0]}))
 
 
 FUNCS = {'identity': lambda v: v, 'wrap': lambda v: [v], 'tag': lambda v: {'was': v}, 'const': lambda v: 42}
